@@ -19,24 +19,24 @@ CHECKS = {
     "C02": ("exploration", "runtime reference-model monitor on hooked integrator state (stage slopes, attempts log)",
             "After every real step the exposed stage slopes are checked against f evaluated (in longdouble) at the stage arguments rebuilt from "
             "the class tableau; dState against h*sum(b k); splitting steps against an explicit drift/kick composition; an instance-level "
-            "wrapper on step() logs every attempt so that an accepted step whose Newton iteration failed is observed.",
+            "wrapper on step() logs every attempt so that an accepted step whose Newton iteration failed is observed. Also in situ on every step of real OdeSystem runs (constants changed between calls) and on stiff float32 runs (h*|df/dy| up to 1e5) judged against the stated solver tolerance.",
             "Exploration over random smooth programs/shapes/dtypes/signs; the reference uses the same class tableau (coefficient "
             "correctness is C01's subject).", "4/C02"),
     "C03": ("exploration", "runtime invariant monitor at the quiescent points of OdeSystem.integrate (per-call segment oracle, CLOCK component, sys.monitoring reach markers)",
             "Every integrate() call of generated histories (spans of every sign pattern, dt larger/smaller than the span and of either sign, split and "
             "reversed calls, runs outgrowing the 5000-row buffer with/without events and dense output, three dtypes) is checked at return for start, "
-            "strict monotonicity, no overshoot, landing within 64 eps, pairing via a clock component, finiteness, dtype and first row = y0.",
+            "strict monotonicity, no overshoot, landing within 64 eps, pairing via a clock component, finiteness, dtype and first row = y0. Histories include moving the final time through its setter, calls whose closing step is rejected, and repeated calls at the target.",
             "Exploration; bounded progress (step budget) restates 'ends at the target'; dt below 64 ulp of the time scale is excluded as undecidable.", "4/C03"),
     "C04": ("exploration", "runtime step-size monitor on recorded grids + metamorphic shift/reflection relations between paired executions",
             "Fixed-step methods (set computed from is_adaptive) are run on spans of every sign pattern: all steps but the last equal dt to rounding, none "
             "longer, implicit shortening only with a Newton failure logged by the step() wrapper; autonomous problems are re-run time-shifted and "
-            "time-reflected and compared row by row at rounding level (fixed step) / tolerance level (adaptive); bit-equality counts are reported.",
+            "time-reflected and compared row by row at rounding level (fixed step) / tolerance level (adaptive); bit-equality counts are reported. The same requests are also made through multi-leg histories and through the solve_ivp facade (first_step).",
             "Exploration; relation oracles need no exact solution. KF06-08 (non-adaptive implicit methods grow their step) are open known findings.", "4/C04"),
     "C05": ("exploration", "runtime oracle against exact solutions in tolerance units (global + local flow) and an attempts-log monitor on step()",
             "Adaptive pairs and Richardson wrappers run on contractive manufactured/linear problems with closed-form solutions over tolerances 1e-3..1e-11, "
             "both directions and initial steps from 1e-4 to 20x the span: every recorded state is compared with the exact solution (normalised by the "
             "steps inside the problem's memory window), sampled accepted steps with the exact local flow from the recorded previous state, the logged "
-            "attempts must strictly shrink after a controller rejection, and blow-up problems must raise with an accurate prefix.",
+            "attempts must strictly shrink after a controller rejection, and blow-up problems must raise with an accurate prefix. Every recorded time increment must equal the step finally accepted for it (attempt log vs grid).",
             "Exploration; constants K_LOC=50, K_GLOB=20 tolerance units (worst observed values are in the evidence); problems are contractive along the "
             "integration direction so the problem's own amplification is ~1.", "4/C05"),
     "C06": ("exploration", "runtime structural invariant of the live DenseOutput at quiescent points + behavioural oracle against exact solutions",
@@ -53,36 +53,36 @@ CHECKS = {
     "C08": ("exploration", "offline checker over the recorded grid + in-situ detection trace for attribution",
             "Event functions g=s*(h-c) over 12 decades of s (component, linear, time, norm, derivative-dependent, steep) are evaluated on the recorded "
             "rows after each run; every strict sign change over a recorded step in an accepted direction (and exact zeros on grid points between "
-            "opposite signs) must have a reported event of that function inside the step; >= 50 crossing steps per {direction}x{dense} cell.",
+            "opposite signs) must have a reported event of that function inside the step; >= 50 crossing steps per {direction}x{dense} cell. Strata: crossings a few ulps inside a step end (levels taken from a reference run), coincident roots of different functions, terminal events sharing their step with non-terminal crossings.",
             "Exploration; oracle needs no exact solution (it is exact with respect to what the detector sees).", "4/C08"),
     "C09": ("exploration", "runtime oracle at the terminal stop and after continuation (segment + dense invariants, exact-trajectory roots, detection trace)",
             "Mixes of terminal/non-terminal events, finite and +-infinite targets, both directions: last time = event time, last state on the surface "
             "relative to steepness, nothing beyond, terminal event last and matching a true root with no certain earlier terminal root, status/success, "
-            "prefix invariants (C03/C06 oracles), then continuation (plain, to an intermediate time, with a second terminal event) re-checked.",
+            "prefix invariants (C03/C06 oracles), then continuation (plain, to an intermediate time, with a second terminal event) re-checked. Landing sub-steps and the first continuation steps are replayed with a fresh integrator (history independence); time axes up to 1e3 away from the origin.",
             "Exploration; only 'certain' (isolated, transversal) true roots are required to be honoured; re-arming the same event at its root is out of scope.", "4/C09"),
     "C10": ("exploration", "runtime oracle on the one-step map of the real integrators (exact/finite-difference Jacobian J-test, h/-h round trip, long-run energy monitor)",
             "Symplectic-flagged methods: exact step matrix on quadratic Hamiltonians and finite-difference step Jacobian on nonlinear separable ones must "
             "satisfy M^T J M = J, step(h) then step(-h) must return, 3000-step runs must show no secular energy growth; the same Hamiltonian is presented in "
             "(q,p), (p,q) and interleaved layouts with the matching kick mask through set_kick_vars / set_method / the constructor; non-symplectic methods are "
-            "run as negative controls (the monitor must fire on them).",
+            "run as negative controls (the monitor must fire on them). Long steps of the implicit symplectic methods (stage iteration may fail) under the own controller and under a user adaptation_fn: whatever step is handed back must be reversible and symplectic; masks given before a change of scheme.",
             "Exploration; implicit methods are probed in float64 (delta 1e-4, threshold 3e-7), splitting methods in longdouble (1e-9).", "4/C10"),
     "C11": ("exploration", "runtime oracle: accepted steps of the real implicit integrators on the linear test equation vs the stability function of the class tableau",
             "y'=lambda*y and damped 2x2 blocks with the exact Jacobian hooked, z=h*lambda over the closed left half-plane (|z| 1e-3..1e8, imaginary axis "
             "included, both step signs consistent with decay): an accepted step never increases |y| and reproduces |R(z')| for the accepted h'; in addition "
-            "|R|<=1 on a 45x44 log-polar grid and no pole in the closed left half-plane, computed in extended precision from the class tableau.",
+            "|R|<=1 on a 45x44 log-polar grid and no pole in the closed left half-plane, computed in extended precision from the class tableau. Chains of consecutive calls on one integrator object (each starting where the previous step ended) are held to the same oracle.",
             "Exploration; tolerances scaled to eps*|lambda| so that Newton can converge; raises are 'no acceptance' and only counted.", "4/C11"),
     "C12": ("fault_enumeration", "crash-point enumeration: fault injected at every k-th invocation of a user callable; offline comparison with the unfaulted reference run",
             "A counting shim wraps rhs, callbacks and event functions; for each configuration (6 method families x directions x dense on/off, events + callback) "
             "the run is repeated with an exception (custom, ZeroDivisionError, FloatingPointError, KeyboardInterrupt, ValueError) at EVERY invocation index; "
             "checked: exception type and cause identity, status, recorded rows bit-equal to a prefix of the reference run, dense output covering exactly those "
             "rows, events a prefix, resume reaching tf with C03/C06 oracles and slope join, reset + rerun bit-equal to a fresh run; thorough adds configurations "
-            "and double faults.",
+            "and double faults. Configurations whose callback inflates dt put crash points inside the retries of rejected, non-first steps; the first steps after a resume are replayed with a fresh integrator.",
             "Exhaustive over invocation positions of the enumerated short runs (N<=~450 each); call sites classified by frame walk; asynchronous interrupts not injected.", "4/C12"),
     "C13": ("exploration", "reference-model monitor: random operation sequences on the real OdeSystem next to a freshly constructed twin; digests after every operation",
             "Sequences over {integrate(), integrate(t), set dt/rtol/atol/method/tf, set_kick_vars, integrate with events, faulting integrate, reset} are executed "
             "twice (bit-identical logs), the state right after reset() is checked for pristineness, everything after the last reset is compared bit-for-bit (rows, "
             "events, dense output) with a new system built with the same constructor arguments and persistent settings, caller data (y0, constants) are compared "
-            "with private copies after every operation; split spans vs single span; a call at the target must change nothing.",
+            "with private copies after every operation; split spans vs single span; a call at the target must change nothing. Richardson wrappers are among the methods; the first steps of every call are replayed with a fresh integrator and its first dense piece must start with f at the recorded row; faults are also placed inside the retry of a rejected step.",
             "Exploration; the kick mask in force is read from the system at reset time; class tableaus are checksummed per worker.", "4/C13"),
     "C14": ("exploration", "runtime oracle from known sign structure on generated functions + icontract post-condition on the production root finder",
             "11 function families (smooth, steep, multiple roots, jump, tangent, end-point roots, rootless) x scales 1e-6..1e9 x bracket order x tolerances eps..1e-3 x "
@@ -92,19 +92,19 @@ CHECKS = {
             "Exploration; tol_x = max(tol,4eps)(1+|x|)+4ulp; the no-root sentinel inf with success=False is accepted.", "4/C14"),
     "C17": ("exploration", "exhaustive small-scope reference-model check (numpy.searchsorted) + random cubics + icontract post-condition in situ",
             "search_bisection / search_bisection_vec on ALL 501 strictly increasing arrays of length 1..7 over a 9-point grid and all 21 queries of the refined grid "
-            "(lists and ndarrays, three dtypes); CubicHermiteInterp end values/slopes bit-exact and random cubics (scalar, vector, matrix valued, both "
+            "(lists and ndarrays, three dtypes; also under affine maps of the axis with spacings from 1e-12 to 1e9); CubicHermiteInterp end values/slopes bit-exact and random cubics (scalar, vector, matrix valued, both "
             "orientations) reproduced to conditioning-scaled rounding inside and outside the interval, gradient = derivative; production look-ups checked in situ.",
             "Exhaustive for the stated small scope (exhaustive:true), exploration for the cubics.", "4/C17"),
     "C15": ("exploration", "runtime oracle on return values of the real solvers on systems with known roots / known absence of roots + record-only wrapper on production stage solves",
             "nonlinear_roots (both dispatch paths), hybrj and newtontrustregion on diagonally dominant, singular-at-root, rootless, flat-asymptote and badly scaled "
             "systems, n=1..12, array shapes, with/without user Jacobian, good/bad/far guesses, three tolerances: success => residual <= 20*tol*(n+|x|)*max(1,|J|) "
             "and shape preserved, otherwise failure must be reported (flag or LinAlgError/ValueError); every successful stage solve of real implicit integrations "
-            "is checked in situ.",
+            "is checked in situ. Further axes: regular systems with a zero-diagonal Jacobian, iteration budgets of 3..32, use_scipy=False dispatch.",
             "Exploration; KF10 (built-in dogleg claims success on step/trust-region criterion) is an open known finding.", "4/C15"),
     "C16": ("exploration", "runtime oracle against analytic Jacobians + history monitor on DiffRHS with sentinel user Jacobians",
             "JacobianWrapper on random smooth and linear maps R^n->R^m with vector/matrix shapes, points near 0 and large, base orders 2..7, flat and shaped "
             "layouts; DiffRHS.jac under random histories of jac/hook/unhook/assign/attribute with a time-dependent right-hand side and repeated times: user "
-            "Jacobians (sentinel values) returned whenever attached, otherwise the derivative at the requested (t,y); njev increments once per request.",
+            "Jacobians (sentinel values) returned whenever attached, otherwise the derivative at the requested (t,y); njev increments once per request. The wrapper inside a live OdeSystem keeps the attached user Jacobian across runs, reset, method and tolerance changes.",
             "Exploration; FD thresholds 1e-8 (direct) / 1e-9 (through DiffRHS) relative to |J|+1, linear maps at 1e4*eps.", "4/C16"),
     "C18": ("exploration", "runtime oracle on the facade's return value against the underlying system, the object API (bit-equality) and scipy.integrate.solve_ivp",
             "solve_ivp with methods by name or class, vector and matrix states, both span directions, t_eval (none, inner, with end points, unsorted, repeated), "
@@ -114,13 +114,13 @@ CHECKS = {
             "Exploration; 'exactly those times' read up to landing rounding (64 eps).", "4/C18"),
     "C19": ("exploration", "reference-model monitor: Python-list sequence semantics and nearest-sample model on recorded grids",
             "Uniform and adaptive, forward and backward, continued trajectories: every integer index in [-len-2,len+2] vs a list of the recorded rows, iteration, "
-            "time look-ups inside/outside the range (dense: bit-equal sol(t); otherwise nearest recorded sample), whole-run and partial time slices.",
+            "time look-ups inside/outside the range (dense: bit-equal sol(t); otherwise nearest recorded sample), whole-run and partial time slices. Time axes in units from 1e-9 to 1e3; dense look-ups are also compared with the exact solution; look-ups on a fresh system and inside callbacks; array-valued look-ups.",
             "Exploration; ties in 'nearest' may go either way.", "4/C19"),
     "C20": ("exploration", "runtime counters: independent completion counter in the user function, class-level wrapper on DiffRHS.jac, callback log, step() attempts log",
             "Explicit, FSAL, implicit (finite-difference and user Jacobian), splitting and Richardson methods with events, dense output, forced rejections, injected "
             "failures and resets: nfev equals completed rhs calls at every quiescent point and inside every callback (0 after reset), njev equals completed "
             "Jacobian requests, callbacks run in order after a new visible row once per recorded step (terminal landings share one), a dt assigned in a callback "
-            "is the first attempt of the next step.",
+            "is the first attempt of the next step. Also through the solve_ivp facade with t_eval and callbacks (assignments across the facade's calls) and for several systems built from one wrapped right-hand side.",
             "Exploration; njev may count since construction or since the last reset.", "4/C20"),
 }
 
@@ -165,8 +165,6 @@ def main():
         "notes": "Repository defects repaired by unguarded 'fix:' commits in /repo: " + "; ".join(FIXES) +
                  ". Open defects are listed in known_findings.json and printed as KNOWN-FINDING lines. Exit code 2 + INCONCLUSIVE line = a monitor was not reached / watchdog fired (never happens on the unchanged tree).",
     }
-    if not na:
-        del man["not_applicable"]
     with open(os.path.join(HERE, "MANIFEST.json"), "w") as fh:
         json.dump(man, fh, indent=1)
     print("wrote MANIFEST.json with %d checks, %d not_applicable" % (len(checks), len(na)))
